@@ -289,6 +289,76 @@ pub fn run(rep: &mut Report, thorough: bool) {
             }
         }
         rep.stage(&format!("cookie-{}", tag), "SYN over all source ports x fixed destination ports and conversely x address pairs x {v4,v6}; determinism probes x 6 variants", n + cmds2.len() as u64, t0);
+        // round 21: EVERY address bit reaches the cookie, in every address class (a base address per
+        // class x {source, destination} x each single bit flipped; the flipped tuple's cookie must
+        // differ from the base's - an equality has probability 2^-32 per pair, ~1e-6 over the stage)
+        {
+            let t0 = std::time::Instant::now();
+            let bases6 = ["2001:db8::9", "fe80::1", "fe80::211:22ff:fe33:4455", "febf:ffff:ffff:ffff::1", "fec0::1", "fc00::1", "ff02::1", "::1", "::", "::ffff:10.0.0.9", "::10.0.0.9", "2002:a00:9::1", "64:ff9b::a00:9", "ffff:ffff:ffff:ffff:ffff:ffff:ffff:ffff"];
+            let bases4 = ["10.0.0.9", "0.0.0.0", "255.255.255.255", "127.0.0.1", "169.254.1.1", "224.0.0.1", "192.168.255.255"];
+            let mut plan: Vec<(Ip, Ip, String)> = Vec::new(); // (client, server, label); entries come in (base, flipped) order
+            let flip = |ip: &Ip, bit: usize| -> Ip {
+                match ip {
+                    Ip::V4(a) => {
+                        let mut b = *a;
+                        b[bit / 8] ^= 0x80 >> (bit % 8);
+                        Ip::V4(b)
+                    }
+                    Ip::V6(a) => {
+                        let mut b = *a;
+                        b[bit / 8] ^= 0x80 >> (bit % 8);
+                        Ip::V6(b)
+                    }
+                }
+            };
+            for (v6, bases) in [(false, &bases4[..]), (true, &bases6[..])] {
+                let nbits = if v6 { 128 } else { 32 };
+                let other = if v6 { srv6() } else { srv4() };
+                let otherc = if v6 { cli6() } else { cli4() };
+                for b in bases {
+                    let base = Ip::parse(b);
+                    for role in 0..2 {
+                        for bit in 0..nbits {
+                            let fl = flip(&base, bit);
+                            if role == 0 {
+                                plan.push((base, other, format!("source {}", b)));
+                                plan.push((fl, other, format!("source {} with bit {} flipped", b, bit)));
+                            } else {
+                                plan.push((otherc, base, format!("destination {}", b)));
+                                plan.push((otherc, fl, format!("destination {} with bit {} flipped", b, bit)));
+                            }
+                        }
+                    }
+                }
+            }
+            let cmds3: Vec<Cmd> = plan.iter().map(|(c, s, _)| Cmd::Frame(Flow { cmac: MAC_CLI, smac: MAC_SRV, cip: *c, sip: *s, cport: 40000, sport: 443 }.tcp(1, 0, F_SYN, b""))).collect();
+            let outs3 = engine::map_cmds(cfg, &cmds3, &format!("cookie-address-bits-{}", tag), true, &mut rep.sink);
+            let mut compared = 0u64;
+            if outs3.len() == cmds3.len() {
+                for k in (0..plan.len()).step_by(2) {
+                    let a = outs3[k].reply.as_deref().and_then(synack_seq);
+                    let b = outs3[k + 1].reply.as_deref().and_then(synack_seq);
+                    if let (Some(a), Some(b)) = (a, b) {
+                        compared += 1;
+                        if a == b {
+                            rep.sink.violation(Violation {
+                                prop: "C06".into(),
+                                key: "cookie-insensitive-to-address-bit".into(),
+                                what: format!("the SYN-ACK cookie {:#x} is the same for {} and for {} (same ports, same key)", a, plan[k].2, plan[k + 1].2),
+                                cfg: cfg.clone(),
+                                cmds: vec![cmds3[k].clone(), cmds3[k + 1].clone()],
+                                idx: k as u64,
+                                stage: format!("cookie-address-bits-{}", tag),
+                            });
+                        }
+                    }
+                }
+            } else {
+                rep.sink.machinery_errors.push("cookie address-bit sweep incomplete".into());
+            }
+            rep.sink.count(&format!("cookie_address_bit_pairs_compared_{}", tag), compared);
+            rep.stage(&format!("cookie-address-bits-{}", tag), "7 IPv4 + 14 IPv6 base addresses of every class (global, link-local with and without reserved bits, site-local, ULA, multicast, loopback, unspecified, IPv4-mapped / -compatible, 6to4, NAT64, all-ones) x {as source, as destination} x every single address bit flipped: the cookie must change", cmds3.len() as u64, t0);
+        }
     }
     // key sensitivity: same tuples, two keys
     {
